@@ -410,3 +410,63 @@ func FuzzC06(f *testing.F) {
 		}
 	})
 }
+
+// TestC06LongNames: interface names around the 255-byte limit (and far beyond), glued to what follows in every way:
+// no separator at all (the name token then runs on into the keyword and is one over-long, malformed name under
+// every reading), a blank, a newline, a comment. Label structures: one long label, many short labels, a label
+// boundary exactly at the limit. (Prompted by the seeded change C06-n: the name matched inside a 255-byte window,
+// the rest of the token re-read as a member keyword.)
+func TestC06LongNames(t *testing.T) {
+	mk := func(n int, shape int) string {
+		switch shape {
+		case 0: // a.<one long label>
+			return "a." + strings.Repeat("b", n-2)
+		case 1: // many two-letter labels
+			s := "a"
+			for len(s)+3 <= n {
+				s += ".bc"
+			}
+			return s + strings.Repeat("d", n-len(s))
+		default: // the last label begins exactly where the limit lies
+			if n <= 258 {
+				return "a." + strings.Repeat("b", n-2)
+			}
+			return "a." + strings.Repeat("b", 252) + "." + strings.Repeat("c", n-255)
+		}
+	}
+	var texts []string
+	bodies := []string{"method F() -> ()\n", "type T (a: int)\nmethod F() -> ()\n", "error E\nmethod F() -> ()\n", "error E (a: int) method F() -> ()"}
+	glues := []string{"", " ", "\n", "\t", "#c\n", "\r\n", "."}
+	for _, n := range []int{200, 249, 250, 251, 252, 253, 254, 255, 256, 257, 258, 259, 260, 261, 262, 300, 510, 511, 512, 4096, 70000} {
+		for shape := 0; shape < 3; shape++ {
+			name := mk(n, shape)
+			for _, g := range glues {
+				for _, b := range bodies {
+					texts = append(texts, "interface "+name+g+b)
+				}
+			}
+			// the keyword's first letters are the last letters of a name that fits
+			if n > 10 {
+				for _, kw := range []string{"method", "type", "error"} {
+					for cut := 1; cut < len(kw); cut++ {
+						texts = append(texts, "interface "+name[:n-cut]+kw[:cut]+kw[cut:]+" F() -> ()\n")
+						texts = append(texts, "interface "+name[:n-cut]+kw[:cut]+"\n"+kw+" F() -> ()\n")
+					}
+				}
+			}
+		}
+	}
+	shard, nshards := Shard()
+	i := 0
+	next := func() (TextCase, bool) {
+		for i < len(texts) {
+			k := i
+			i++
+			if k%nshards == shard {
+				return mkTextCase(texts[k], "long-name", false), true
+			}
+		}
+		return TextCase{}, false
+	}
+	RunCases(t, propC06, "C06LongNames", true, next)
+}
